@@ -769,6 +769,12 @@ VALIDATOR_SPEC = {
 }
 
 
+def _validator_probes(eng) -> List[object]:
+    """the JSON-shaped probes plus one object that is none of the JSON types but quacks like a mapping (a key object: it has keys() and [])"""
+    from ..fold import Inst
+    return VALIDATOR_PROBES + [Inst(eng.prog.cls("rfc7518.oct_key:OctKey"), {})]
+
+
 def validator_verdicts(eng, fn: FunctionInfo) -> Optional[Dict[int, str]]:
     """Fold a one-argument value validator on the probe battery: index of the probe -> "ok" | name of the exception class it raises.
     None when some probe does not fold or a test of the validator was decided the same way on every probe (11.11: a sample, not a decision)."""
@@ -778,9 +784,9 @@ def validator_verdicts(eng, fn: FunctionInfo) -> Optional[Dict[int, str]]:
     out: Dict[int, str] = {}
     F.start_trace()
     try:
-        for i, v in enumerate(VALIDATOR_PROBES):
+        for i, v in enumerate(_validator_probes(eng)):
             try:
-                r = F.call(FuncVal(fn, None, None), [_copy.deepcopy(v)], {})
+                r = F.call(FuncVal(fn, None, None), [_copy.deepcopy(v) if not hasattr(v, 'cls') else v], {})
             except FoldRaise as e:
                 out[i] = getattr(e, "name", "") or "?"
                 continue
@@ -801,7 +807,7 @@ def validator_accepts_exactly(eng, fn: FunctionInfo, spec_name: str) -> Optional
         return None
     want = VALIDATOR_SPEC[spec_name]
     bad = []
-    for i, v in enumerate(VALIDATOR_PROBES):
+    for i, v in enumerate(_validator_probes(eng)):
         if want(v) and vd[i] != "ok":
             bad.append(f"refuses {v!r} ({vd[i]})")
         elif not want(v) and vd[i] == "ok":
